@@ -97,9 +97,56 @@ META2 = {
  "C18-m2": ("b10", "C18", "parseT4T7Latency uses fmt.Sscanf(prefix+\"%d\")", "a first entry that starts with digits but is malformed (12abc, 12.5, 1e3)", ""),
 }
 
+META3 = {
+ "C01-m1": ("d01", "C01", "refresh take-over records the replacement as READY instead of inheriting the old state (no publish)", "old connection already left READY and no other channel READY (e.g. a pool of one): the most recently published picker keeps failing calls for K", "initially missed by the C01 check (the history stopped at the C04 rule 'missing publish' of the swap, owned by C04); C01/C08 histories now continue across it and the keyed-pick rule judges the next call (C01.home-ready:cur-tf-picker)"),
+ "C01-m2": ("d01", "C01", "unbindSubConn only removes the binding if the key is bound to the SubConn the UNBIND ran on", "fallback on and the UNBIND served by a stand-in while the home is down", ""),
+ "C08-m1": ("d01", "C08", "stand-in chosen from the READY list of the picker running the Pick, not from the current picker", "a call for K on a stale picker after home and another channel broke", ""),
+ "C08-m2": ("d01", "C08", "remembered stand-in reused only while below the low watermark", "stand-in reaches the watermark while another READY channel is less busy", ""),
+ "C02-m1": ("d02", "C02", "regeneratePicker skips READY channels whose ref is being refreshed", "another channel changes readiness while a refresh is in progress", ""),
+ "C02-m2": ("d02", "C02", "scan loop in getLeastBusySubConnRef no longer updates the running minimum", "three or more channels with loads such as (2,0,1)", ""),
+ "C03-m1": ("d02", "C03", "refresh-swap branch no longer deletes the replacement from refreshingScRefs", "a completed refresh followed by a connection loss and reconnect of that channel: RemoveSubConn of its live connection", ""),
+ "C03-m2": ("d02", "C03", "initializeConfig clamps minSize to maxSize", "minSize > maxSize (or > 4 with maxSize unset)", ""),
+ "C09-m1": ("d02", "C09", "the sigChan arm of the RR wait loop returns the ref immediately", "a non-READY state change of the assigned channel while a BIND waits", ""),
+ "C09-m2": ("d02", "C09", "round-robin guard cmd == BIND became cmd != BOUND", "an UNBIND method under ROUND_ROBIN", ""),
+ "C04-m1": ("d03", "C04", "picker regenerated only when READY-ness changed or the new aggregate is TRANSIENT_FAILURE", "aggregate TRANSIENT_FAILURE -> CONNECTING without READY change: the fail-fast picker is republished with CONNECTING", ""),
+ "C04-m2": ("d03", "C04", "unknown-SubConn guard flattened to 'if !ok && log.V(FINE)'", "reports from removed or replaced connections at default verbosity", ""),
+ "C07-m1": ("d03", "C07", "gotResp() also clears ref.refreshing", "a response during an in-flight refresh, then renewed unresponsiveness: a second replacement", ""),
+ "C07-m2": ("d03", "C07", "the dl.After(now) clause dropped from the response classification", "a server-side DEADLINE_EXCEEDED (same text) before the client's deadline", ""),
+ "C20-m1": ("d03", "C20", "gb.addrs = addrs moved into the two SubConn-creating branches", "a later update on a non-empty pool, then growth or a refresh", ""),
+ "C20-m2": ("d03", "C20", "forwarding to in-flight replacements skips one whose old connection is no longer in the pool", "old connection shut down during the refresh, then a resolver update, then the replacement takes over", "initially missed (exact histories never shut a connection down while its replacement was pending); the macro shutdown-during-refresh now does, with the take-over semantics the repository's TestShutdownWhileRefreshing expects - it also exposed a remainder of defect D17 on the unchanged tree (fixed by ceec4df); patch.diff is the change re-applied to the repaired tree, patch.orig.diff the sub-agent's original"),
+ "C05-m1": ("d04", "C05", "Shutdown case drops delete(gb.scStates, sc)", "Shutdown, a late READY report for the same SubConn, then a pick (nil ref in the picker)", ""),
+ "C05-m2": ("d04", "C05", "fieldByName loses its IsNil check on a promoted field", "a request/reply whose key field is promoted through a nil embedded pointer", "initially missed by the C05 check (hostile requests had no embedded pointers; the C11 check covers the function itself); hostile requests and replies now include them"),
+ "C05-m3": ("d04", "C05", "strings.Title replaced by ToUpper(name[:1])+name[1:]", "a BOUND/UNBIND method with an empty affinity_key or a locator like 'a.' / 'a..b'", "initially missed by the C05 check (all configured key paths were well-formed); hostile histories now request methods configured with empty path segments"),
+ "C06-m1": ("d04", "C06", "early return for an ended context in getSubConnRoundRobin while gb.mu.RLock is held", "an RR BIND pick on a not-READY channel with a context already done", ""),
+ "C06-m2": ("d04", "C06", "addSubConn returns true when the pool is already at max_size: enforceMinSize spins", "a configuration with min_size > max_size", "first run INCONCLUSIVE after 905 s: the spin makes no NewSubConn call, each spinning case cost the 60 s watchdog and left a goroutine burning a CPU until the batch timed out; a running operation is now declared stuck after 8 s and a batch stops after two stuck operations"),
+ "C06-m3": ("d04", "C06", "bindSubConnRef takes ref.mu before gb.mu (lock order inversion)", "a BIND completion racing the READY report of the replacement of the same channel", ""),
+ "C10-m1": ("d05", "C10", "regeneratePicker builds the new READY list in the backing array of the picker it replaces", "a Pick on a picker gRPC still holds racing the next state change", ""),
+ "C10-m2": ("d05", "C10", "initStreamErr stored after releasing the stream mutex on the SendMsg error path", "first SendMsg fails creation while another goroutine of the call reads", ""),
+ "C10-m3": ("d05", "C10", "NewMultiEndpoint's construction lock dropped", "a tiny RecoveryTimeout or many endpoints", ""),
+ "C10-m4": ("d05", "C10", "pickConn releases gme.mu before the gme.pools lookup", "an RPC racing an UpdateMultiEndpoints that adds or removes a pool", ""),
+ "C11-m1": ("d06", "C11", "locator split with strings.FieldsFunc: empty segments silently dropped", "'.key', 'key.', 'a..b'", ""),
+ "C11-m2": ("d06", "C11", "reflect.Copy fast path for a repeated string field at the end of the path", "element type is a named string type ([]ID)", "initially missed (generated types only use predeclared types); hand-written messages with named string and slice types are now probed"),
+ "C12-m1": ("d06", "C12", "SendMsg broadcasts only after a successful creation", "RecvMsg/Header parked when the first SendMsg fails to create the stream", ""),
+ "C12-m2": ("d06", "C12", "Trailer() reuses the 'nothing happened yet' predicate and otherwise delegates to a nil stream", "creation failure followed by Trailer()", ""),
+ "C13-m1": ("d07", "C13", "SetEndpoints stops the recovery timers of kept endpoints too", "the list is replaced while the current endpoint is inside its recovery window", ""),
+ "C13-m2": ("d07", "C13", "empty-list check in SetEndpoints runs after the removal loop", "a rejected empty list wipes every endpoint; the next report or timer panics", "first run INCONCLUSIVE: the panic killed the child process and was attributed to C05; mesim now recovers panics of the code under test and reports them under the property being checked"),
+ "C14-m1": ("d07", "C14", "delayed-switch callback compares priorities the wrong way for a recovering current", "pending switch, reorder so that current outranks the target, then current goes into recovery", ""),
+ "C14-m2": ("d07", "C14", "setState no longer stops the pending recovery timer (relies on lastChange only)", "an unavailable and an available report at the same clock reading", "initially missed (the virtual clock advanced at least 1 ns per operation); one operation in eight now happens at the same clock reading as the previous one"),
+ "C15-m1": ("d07", "C15", "obsolete pools are closed without stopMonitoring", "an update drops an endpoint", ""),
+ "C15-m2": ("d07", "C15", "'never delete the default' guard with defaultName assigned at the end", "an update changes the default and drops the former default, then an RPC names the former default", "initially missed; contexts naming a MultiEndpoint that was configured earlier and removed are now part of every routing check"),
+ "C16-m1": ("d07", "C16", "Close() continues past stopMonitoring when conn.Close() fails", "a pool's ClientConn already closed by its owner", "initially missed; in a third of the cases the harness now closes one dialled ClientConn itself before Close()"),
+ "C16-m2": ("d07", "C16", "up-front empty-list validation removed (error surfaces after the dials)", "options with an empty endpoint list", ""),
+ "C17-m1": ("d08", "C17", "ParseConfig uses DiscardUnknown", "JSON with an unknown or misspelled field", ""),
+ "C17-m2": ("d08", "C17", "method table built from the caller's entries instead of the clone", "the caller mutates its config after the first update", ""),
+ "C18-m1": ("d08", "C18", "prefix stripped with strings.TrimLeft (character set)", "a duration starting with 4 or 7", ""),
+ "C18-m2": ("d08", "C18", "database regex matched against the instance flag", "valid instance with an invalid database", ""),
+ "C19-m1": ("d08", "C19", "early return also when the standard encoding is empty", "a message that encodes to zero bytes", ""),
+ "C19-m2": ("d08", "C19", "proto.DiscardUnknown(m) before encoding", "a message carrying unknown fields", ""),
+}
+
 def main():
     kept, skipped = [], []
-    items = [("r1-" + k, k, v) for k, v in META.items()] + [("r2-" + k, k, v) for k, v in META2.items()]
+    items = [("r1-" + k, k, v) for k, v in META.items()] + [("r2-" + k, k, v) for k, v in META2.items()] + [("r3-" + k, k, v) for k, v in META3.items()]
     for mid, dname, (agent, prop, change, needs, note) in sorted(items):
         d = os.path.join(SRC, agent, dname)
         conf = os.path.join(d, "confirm.txt")
@@ -113,7 +160,7 @@ def main():
         r = json.load(open(res))
         dst = os.path.join("/verif/seeded", mid)
         os.makedirs(dst, exist_ok=True)
-        for f in ["patch.diff", "README.md"] + [os.path.basename(x) for x in glob.glob(os.path.join(d, "*_test.go"))]:
+        for f in ["patch.diff", "patch.orig.diff", "README.md"] + [os.path.basename(x) for x in glob.glob(os.path.join(d, "*_test.go"))]:
             if os.path.exists(os.path.join(d, f)):
                 shutil.copy(os.path.join(d, f), os.path.join(dst, f))
         shutil.copy(conf, os.path.join(dst, "confirm.txt"))
